@@ -364,27 +364,34 @@ spec fn mm_delta_m(mb: int, adj: bool, f: int, lp: bool, wb: int, db: int, wa: i
     mm_delta(adj, f, dim(mb, lp), dim(next_month(mb), lp), wb, db, wa, da)
 }
 
-// minimum and maximum of delta over the first n of the 14 combinations (f, lp), index i = 2 f + (lp ? 1 : 0)
-spec fn mm_min(mb: int, adj: bool, wb: int, db: int, wa: int, da: int, n: int) -> int
+// (minimum, maximum) of delta over the first n of the 14 combinations (f, lp), index i = 2 f + (lp ? 1 : 0); one pass
+spec fn mm_minmax(mb: int, adj: bool, wb: int, db: int, wa: int, da: int, n: int) -> (int, int)
     decreases n,
 {
     let v = mm_delta_m(mb, adj, (n - 1) / 2, (n - 1) % 2 == 1, wb, db, wa, da);
-    if n <= 1 { v } else { let r = mm_min(mb, adj, wb, db, wa, da, n - 1); if v < r { v } else { r } }
+    if n <= 1 {
+        (v, v)
+    } else {
+        let r = mm_minmax(mb, adj, wb, db, wa, da, n - 1);
+        (if v < r.0 { v } else { r.0 }, if v > r.1 { v } else { r.1 })
+    }
 }
 
-spec fn mm_max(mb: int, adj: bool, wb: int, db: int, wa: int, da: int, n: int) -> int
-    decreases n,
-{
-    let v = mm_delta_m(mb, adj, (n - 1) / 2, (n - 1) % 2 == 1, wb, db, wa, da);
-    if n <= 1 { v } else { let r = mm_max(mb, adj, wb, db, wa, da, n - 1); if v > r { v } else { r } }
+spec fn mm_min(mb: int, adj: bool, wb: int, db: int, wa: int, da: int, n: int) -> int {
+    mm_minmax(mb, adj, wb, db, wa, da, n).0
+}
+
+spec fn mm_max(mb: int, adj: bool, wb: int, db: int, wa: int, da: int, n: int) -> int {
+    mm_minmax(mb, adj, wb, db, wa, da, n).1
 }
 
 // the audited procedure is right for one combination: a reported range is exactly [min, max] of delta; "always
 // consistent" is reported only if delta is constant or at least 22 days (more than the largest possible
 // difference of the two day times, 16 d 3 h) in absolute value
 spec fn mm_case_ok(mb: int, adj: bool, wb: int, db: int, wa: int, da: int) -> bool {
-    let lo = mm_min(mb, adj, wb, db, wa, da, 14);
-    let hi = mm_max(mb, adj, wb, db, wa, da, 14);
+    let mm = mm_minmax(mb, adj, wb, db, wa, da, 14);
+    let lo = mm.0;
+    let hi = mm.1;
     match mm_range(mb, wb, db, if adj { next_month(mb) } else { mb }, wa, da) {
         Some(r) => r.0 == lo && r.1 == hi,
         None => lo == hi || lo >= 22 || hi <= -22,
